@@ -2241,6 +2241,19 @@ func PutSyncedTo(ns walletdb.ReadWriteBucket, bs *BlockStamp) error {
 		}
 	}
 
+	// Hashes still stored for heights above the new tip belong to blocks
+	// that have been disconnected. Remove them, otherwise a later block at
+	// one of those heights would pass the previous block check above
+	// against a block that is no longer part of the chain.
+	for height := bs.Height + 1; ; height++ {
+		if _, err := fetchBlockHash(ns, height); err != nil {
+			break
+		}
+		if err := deleteBlockHash(ns, height); err != nil {
+			return managerError(ErrDatabase, errStr, err)
+		}
+	}
+
 	// Finally, we can update the syncedTo value.
 	if err := updateSyncedTo(ns, bs); err != nil {
 		return managerError(ErrDatabase, errStr, err)
